@@ -1,8 +1,10 @@
 (* C40 — Validation and state queries are safe under concurrency (partial:
    lock discipline of the translated method summaries; see notes/C40.md).
-   Property theorems only. *)
-From Coq Require Import List Bool NArith.
-From ELA Require Import model.C40_Locks proof.C40_Locks.
+   Property theorems only.  gen/C40_summaries.v is regenerated from the Go
+   source on every run. *)
+From Coq Require Import List Bool NArith String.
+From ELA Require Import model.C40_Locks model.C40_Known proof.C40_Locks gen.C40_summaries proof.C40_Gen.
+Import ListNotations.
 
 (* If the checker accepts a list of method parts, then for every number of
    threads and every interleaving of entering/leaving parts under the
@@ -21,3 +23,47 @@ Theorem C40_lockset_complete : forall ss s1 s2,
   exists st, reachable ss 2 st /\ race st.
 Proof. exact lockset_complete. Qed.
 Print Assumptions C40_lockset_complete.
+
+(* The full statement — every exported method part of State, Committee and
+   TxPool is kept apart from every conflicting part by the object's lock — is
+   FALSE of the summaries of the current tree: some lock group is rejected
+   (escaping pointers, writes under RLock; each recorded in
+   known_findings.jsonl). *)
+Theorem C40_lockset_refuted :
+  existsb (fun g => negb (lockset_ok g)) groups = true.
+Proof. exact lockset_refuted. Qed.
+Print Assumptions C40_lockset_refuted.
+
+(* ... with a concrete witness schedule in the lock semantics. *)
+Theorem C40_race_witness :
+  exists g st, In g groups /\ reachable g 2 st /\ race st.
+Proof. exact race_witness. Qed.
+Print Assumptions C40_race_witness.
+
+(* Strongest true restriction: with the recorded findings (known_parts, by
+   name) and the confirmed intentionally lock-free methods (allowed_parts)
+   left out, every lock group of the regenerated summaries is accepted. *)
+Theorem C40_lockset :
+  forallb (fun g => lockset_ok (without (excluded_ids part_names allowed_ids) g)) groups = true.
+Proof. exact lockset_partial. Qed.
+Print Assumptions C40_lockset.
+
+(* Hence: in every lock group, for any number of threads and any schedule,
+   no two threads are ever simultaneously inside conflicting remaining parts. *)
+Theorem C40_no_race_partial : forall g, In g groups ->
+  forall n st, reachable (without (excluded_ids part_names allowed_ids) g) n st -> ~ race st.
+Proof. exact no_race_partial. Qed.
+Print Assumptions C40_no_race_partial.
+
+(* Non-vacuity: three lock groups; each still has more than ten parts after
+   the exclusion, including parts that write under the exclusive lock and
+   parts that read under the shared lock; the exclusion removes fewer parts
+   than remain. *)
+Example C40_groups_nonempty :
+  List.length groups = 3 /\
+  forallb (fun g => Nat.ltb 10 (List.length (without (excluded_ids part_names allowed_ids) g))) groups = true /\
+  forallb (fun g => existsb (fun s => match s_mode s with MW => existsb a_write (s_acc s) | _ => false end)
+                            (without (excluded_ids part_names allowed_ids) g)) groups = true /\
+  forallb (fun g => existsb (fun s => match s_mode s with MR => true | _ => false end)
+                            (without (excluded_ids part_names allowed_ids) g)) groups = true.
+Proof. vm_compute. repeat split. Qed.
